@@ -121,6 +121,25 @@ def run(ctx):
                         if fam == "jsonVersion" and not any(o[1].startswith("j:") for o in seq) and rng.random() < 0.5:
                             seq = ((["--json"], "j:t"),) + tuple(seq)
                         one(cfgsel, seq)
+        # a gitconfig value is consulted (and validated) whenever no option of ITS family is given, whatever the output
+        # format and the options of the other families
+        fmt_seqs = [((["--json"], "j:t"),), ((["-j"], "j:t"), (["--json-version=2"], "jv:2")), ((["--json-version=1"], "jv:1"), (["--json"], "j:t")),
+                    ((["--names=none"], "nm:none"),), ((["--no-progress"], "np:t"),), ((["--critical"], "cr:t"),)]
+        for fam in ("threshold", "names", "progress", "jsonVersion"):
+            for cv in CFG[fam]:
+                for fs in fmt_seqs:
+                    toks = [o[1] for o in fs]
+                    if fam == "threshold" and any(t.startswith(("cr:", "th:", "v:", "nv:")) for t in toks):
+                        continue
+                    if fam == "names" and any(t.startswith("nm:") for t in toks):
+                        continue
+                    if fam == "progress" and any(t.startswith(("p:", "np:")) for t in toks):
+                        continue
+                    if fam == "jsonVersion" and any(t.startswith("jv:") for t in toks):
+                        continue
+                    cfgsel = dict(base)
+                    cfgsel[fam] = cv
+                    one(cfgsel, fs)
         # documented equivalent spellings: byte-identical stdout
         pairs = [(["--verbose"], ["--threshold=0"]), (["-v"], ["--threshold=0"]), (["--critical"], ["--threshold=30"]),
                  (["--no-verbose"], ["--threshold=1"]), (["-j"], ["--json"]),
